@@ -316,4 +316,86 @@ example : unwrapBytes (wrapBytes [1, 0, 0, 0x20, 1, 1] ++ [0xff]) = some [1, 0, 
 
 end
 
+-- ------------------------------------------------------------------ published code and hash
+section Published
+open AikenVerif.Cbor
+
+/-- Plutus language version of a script; the ledger hashes `tag ++ code` -/
+inductive PlutusVersion where
+  | v1 | v2 | v3
+  deriving DecidableEq, Repr
+
+def versionTag : PlutusVersion → UInt8
+  | .v1 => 1 | .v2 => 2 | .v3 => 3
+
+/-- what a blueprint stores for a validator: `compiledCode` and `hash` -/
+structure Published (H : Type) where
+  code : Bytes
+  hash : H
+
+variable {H : Type} [DecidableEq H] (hash : Bytes → H)   -- blake2b-224: a parameter
+
+/-- `impl Serialize for SerializableProgram` (`compiled_code_and_hash`): code =
+CBOR byte string of the flat bytes, hash = H(version tag ++ code) -/
+def serialize (cd : DataCodec) (v : PlutusVersion) (p : Program DeBruijn) : Option (Published H) :=
+  (toFlat cd p).map fun flat => ⟨wrapBytes flat, hash (versionTag v :: wrapBytes flat)⟩
+
+/-- `impl Deserialize for SerializableProgram`: decode the code, **re-encode it**,
+and recover the version by comparing the hash for V3, V2, V1 in this order -/
+def deserialize (cd : DataCodec) (m : Mode) (pub : Published H) : Option (PlutusVersion × Program DeBruijn) :=
+  match unwrapBytes pub.code with
+  | none => none
+  | some flat =>
+    match (fromFlat cd m flat : Res (Program DeBruijn)) with
+    | .ok p =>
+      match toFlat cd p with
+      | none => none
+      | some flat' =>
+        if hash (versionTag .v3 :: wrapBytes flat') = pub.hash then some (.v3, p)
+        else if hash (versionTag .v2 :: wrapBytes flat') = pub.hash then some (.v2, p)
+        else if hash (versionTag .v1 :: wrapBytes flat') = pub.hash then some (.v1, p)
+        else none
+    | _ => none
+
+/-- **published_hash**: the hash stored next to the code is H(version tag ++ exactly
+that code), and the code is the CBOR wrapper of `to_flat p` -/
+theorem published_hash (cd : DataCodec) (v : PlutusVersion) (p : Program DeBruijn) (pub : Published H)
+    (h : serialize hash cd v p = some pub) :
+    pub.hash = hash (versionTag v :: pub.code) ∧ ∃ flat, toFlat cd p = some flat ∧ pub.code = wrapBytes flat := by
+  unfold serialize at h
+  cases hf : toFlat cd p with
+  | none => simp [hf] at h
+  | some flat =>
+    simp only [hf, Option.map_some, Option.some.injEq] at h
+    subst h
+    exact ⟨rfl, flat, rfl, rfl⟩
+
+/-- **deserialize_serialize**: loading what was saved gives back the same program
+and version — provided H separates the three version tags on that code (the
+loader has nothing but the hash to tell the versions apart) -/
+theorem deserialize_serialize (cd : DataCodec) (okD : Data → Bool) (law : CodecLaw cd okD) (m : Mode)
+    (v : PlutusVersion) (p : Program DeBruijn) (pub : Published H)
+    (hwf : WF okD p = true) (h : serialize hash cd v p = some pub)
+    (hlen : ∀ flat, toFlat cd p = some flat → flat.length < 2 ^ 64)
+    (hsep : ∀ v', v' ≠ v → hash (versionTag v' :: pub.code) ≠ hash (versionTag v :: pub.code)) :
+    deserialize hash cd m pub = some (v, p) := by
+  obtain ⟨hh, flat, hf, hc⟩ := published_hash hash cd v p pub h
+  have hu : unwrapBytes pub.code = some flat := by
+    have := cbor_wrap_roundtrip flat [] (hlen flat hf)
+    simpa [hc] using this
+  have hd : (fromFlat cd m flat : Res (Program DeBruijn)) = .ok p := by
+    have := flat_roundtrip cd okD law m p hwf flat [] hf
+    simpa using this
+  unfold deserialize
+  simp only [hu, hd, hf, ← hc, hh]
+  cases v
+  · have h3 := hsep .v3 (by decide)
+    have h2 := hsep .v2 (by decide)
+    simp [h3, h2]
+  · have h3 := hsep .v3 (by decide)
+    simp [h3]
+  · simp
+
+end Published
+
 end AikenVerif.C08
